@@ -377,6 +377,9 @@ func (tr *translator) globalIntsOf(f *ssa.Function) []*ssa.Global {
 	if r, ok := tr.globalInts[f]; ok {
 		return r
 	}
+	if tr.isGen6(f) {
+		return nil // generation 6: package-level integers must be constants of the package initialiser (reflect.go)
+	}
 	tr.globalInts[f] = nil
 	set := map[*ssa.Global]bool{}
 	for _, b := range f.Blocks {
